@@ -389,3 +389,18 @@ NATIVE.update({
     "decimal_value": lambda s: int(s),
     "imp": lambda a, b: (not a) or b,
 })
+
+
+# ---- C19: native twin of props/c19.py completion_ok (same definition, over the real word tables)
+def completion_ok(c, prefix, num_words):
+    from wormhole import _wordlist as wl
+    cnt = prefix.count("-")
+    li = prefix.rfind("-")
+    head = "" if li < 0 else prefix[:li + 1]
+    last = prefix if li < 0 else prefix[li + 1:]
+    dash = "-" if cnt + 1 < num_words else ""
+    words = wl.odd_words_lowercase if cnt % 2 == 0 else wl.even_words_lowercase
+    return c.startswith(prefix) and any(w.startswith(last) and c == head + w + dash for w in words)
+
+
+NATIVE.update({"completion_ok": completion_ok})
